@@ -9,7 +9,8 @@ package main
 
 import (
 	"encoding/json"
-	"fmt"
+	"io"
+	"log"
 	"os"
 	"os/exec"
 	"path/filepath"
@@ -29,9 +30,11 @@ func main() {
 }
 
 func realMain() (code int) {
+	isolateStdout()
+	log.SetOutput(io.Discard) // fox logs superfluous WriteHeader calls through the standard logger
 	args := os.Args[1:]
 	if len(args) == 0 {
-		fmt.Println("usage: foxcheck <ID>|--setup|--selftest [--tier quick|thorough] [--replay file]")
+		outln("usage: foxcheck <ID>|--setup|--selftest [--tier quick|thorough] [--replay file]")
 		return exitTool
 	}
 	tier := os.Getenv("VERIF_TIER")
@@ -75,12 +78,12 @@ func realMain() (code int) {
 			ids = append(ids, k)
 		}
 		sort.Strings(ids)
-		fmt.Println(strings.Join(ids, " "))
+		outln(strings.Join(ids, " "))
 		return exitOK
 	}
 	f, ok := checks[id]
 	if !ok {
-		fmt.Printf("unknown check %q\n", id)
+		outf("unknown check %q\n", id)
 		return exitTool
 	}
 	// Checks that need the hook build re-exec the tagged binary.
@@ -90,15 +93,20 @@ func realMain() (code int) {
 			bin = os.Getenv("FOXCHECK_RACE_BIN")
 		}
 		if bin == "" {
-			fmt.Println("hook build not available")
+			outln("hook build not available")
 			return exitTool
 		}
 		if _, err := os.Stat(bin); err != nil {
-			fmt.Println("hook build not available:", err)
+			outln("hook build not available:", err)
 			return exitTool
 		}
 		cmd := exec.Command(bin, os.Args[1:]...)
-		cmd.Stdout, cmd.Stderr, cmd.Stdin = os.Stdout, os.Stderr, os.Stdin
+		cmd.Stdout, cmd.Stderr, cmd.Stdin = out, out, os.Stdin
+		if needsRace[id] {
+			rl, _ := os.MkdirTemp("", "foxverif-race-")
+			defer os.RemoveAll(rl)
+			cmd.Env = append(os.Environ(), "GORACE=halt_on_error=0 exitcode=0 log_path="+filepath.Join(rl, "race"), "FOXCHECK_RACE_LOG="+rl)
+		}
 		if err := cmd.Run(); err != nil {
 			if ee, ok := err.(*exec.ExitError); ok {
 				return ee.ExitCode()
@@ -112,7 +120,7 @@ func realMain() (code int) {
 	defer func() {
 		if p := recover(); p != nil {
 			if tf, ok := p.(toolFailure); ok {
-				fmt.Printf("TOOL-FAILURE property=%s: %s\n", id, tf.msg)
+				outf("TOOL-FAILURE property=%s: %s\n", id, tf.msg)
 				code = exitTool
 				return
 			}
@@ -152,21 +160,21 @@ func setup() int {
 		cmd.Dir = tmp
 		out, err := cmd.CombinedOutput()
 		if err != nil || strings.Contains(string(out), "*** Errors") || strings.Contains(string(out), "Fatal errors") {
-			fmt.Printf("SANY failed on %s:\n%s\n", e.Name(), tail(string(out), 15))
+			outf("SANY failed on %s:\n%s\n", e.Name(), tail(string(out), 15))
 			bad++
 		}
 	}
 	if bad > 0 {
 		return exitTool
 	}
-	fmt.Println("setup ok")
+	outln("setup ok")
 	return exitOK
 }
 
 func doReplay(r *Run, path string) int {
 	b, err := os.ReadFile(path)
 	if err != nil {
-		fmt.Println("cannot read replay file:", err)
+		outln("cannot read replay file:", err)
 		return exitTool
 	}
 	var rec struct {
@@ -176,7 +184,7 @@ func doReplay(r *Run, path string) int {
 	if json.Unmarshal(b, &rec) == nil && rec.Tier != "" {
 		r.Seed, r.Tier = rec.Seed, rec.Tier
 	}
-	fmt.Printf("replay: re-running check %s with the recorded seed=%d tier=%s of %s\n", r.ID, r.Seed, r.Tier, path)
+	outf("replay: re-running check %s with the recorded seed=%d tier=%s of %s\n", r.ID, r.Seed, r.Tier, path)
 	f := checks[r.ID]
 	f(r)
 	return r.finish()
